@@ -28,7 +28,7 @@ StepReset ==
     /\ Ev.ev = "Reset"
     /\ machine' = Ev.machine
     /\ IF Ev.machine = "lifecycle"
-       THEN /\ ss' = [s \in Sessions |-> [NewSession("Start", Ev.live, Ev.n, Ev.failAt) EXCEPT !.cap = Ev.cap]]
+       THEN /\ ss' = [s \in Sessions |-> [NewSession("Start", Ev.live, Ev.n, Ev.failAt) EXCEPT !.cap = Ev.cap, !.storeFail = Ev.storeFail]]
             /\ topicOf' = [s \in Sessions |-> "t1"]
        ELSE /\ ss' = [s \in Sessions |-> [LiveSession EXCEPT !.cap = Ev.cap,
                                                              \* sessions that do not take part are over
